@@ -58,3 +58,97 @@ def c16_differential(pid, stage, tier, seed, outdir, chk):
     total["counters"]["c16.transcripts_not_comparable(touch a disabled facility)"] = skipped
     total["evaluations"] += compared
     return total
+
+
+def declbatch(pid, stage, tier, seed, outdir, chk):
+    """Generated declarations: emit Rust source with the derives for `nb` batches (deterministic in
+    the seed), compile them against /repo's macros, run every batch binary under the monitors of
+    `pid`, merge. The batch binaries regenerate the spec from the same seed."""
+    import subprocess, time, fcntl, glob, re
+    from concurrent.futures import ThreadPoolExecutor
+    t0 = time.time()
+    ok, vrun = chk.build_variant("dbg")
+    if not ok:
+        return {"build_error": vrun}
+    nb, nfull, nnames = stage["batches_" + tier]
+    gen = os.path.join(chk.BUILD, "gen")
+    tdir = os.path.join(chk.BUILD, "gen-target")
+    os.makedirs(os.path.join(gen, "src", "bin"), exist_ok=True)
+    lock = open(os.path.join(chk.BUILD, "gen.lock"), "w")
+    fcntl.flock(lock, fcntl.LOCK_EX)
+    merged = chk.new_merge()
+    merged["stage"] = "generated-declarations/%s (%d batches x %d full + %d name-set declarations)" % (pid, nb, nfull, nnames)
+    merged["stage_extra"] = {}
+    try:
+        cargo_toml = open(os.path.join(chk.ROOT, "orch", "declbatch.Cargo.toml")).read()
+        ct = os.path.join(gen, "Cargo.toml")
+        if not os.path.exists(ct) or open(ct).read() != cargo_toml:
+            open(ct, "w").write(cargo_toml)
+        shutil_copy = os.path.join(gen, "Cargo.lock")
+        if not os.path.exists(shutil_copy):
+            import shutil
+            shutil.copy(os.path.join(chk.HARNESS, "Cargo.lock"), shutil_copy)
+        want = {}
+        for b in range(nb):
+            name = "%s%d" % ("q" if tier == "quick" else "t", b)
+            path = os.path.join(gen, "src", "bin", name + ".rs")
+            tmp = path + ".new"
+            p = subprocess.run([vrun, "gen-decls", "--seed", str(seed), str(b), str(nfull), str(nnames), tmp], env=chk.ENV_BASE, stdout=subprocess.PIPE, stderr=subprocess.PIPE)
+            if p.returncode != 0:
+                merged["inconclusive"].append("declaration generator failed: %s" % p.stderr.decode()[-300:])
+                return merged
+            # keep the old file (and its mtime) when nothing changed: no recompile
+            if os.path.exists(path) and open(path).read() == open(tmp).read():
+                os.remove(tmp)
+            else:
+                os.replace(tmp, path)
+            want[name] = b
+        for f in glob.glob(os.path.join(gen, "src", "bin", "*.rs")):
+            if os.path.basename(f)[:-3] not in want:
+                os.remove(f)
+        env = dict(chk.ENV_BASE, CARGO_TARGET_DIR=tdir)
+        p = subprocess.run(["cargo", "build", "--offline", "--bins"], cwd=gen, env=env, stdout=subprocess.PIPE, stderr=subprocess.STDOUT, text=True)
+        merged["stage_extra"]["compile_s"] = round(time.time() - t0, 1)
+        if p.returncode != 0:
+            errs = [l for l in p.stdout.splitlines() if l.startswith("error")]
+            # a declaration the grammar produced but the macro rejects is a generator problem, not a violation;
+            # /repo not compiling at all is a build error. Either way nothing was observed.
+            return {"build_error": "generated declarations do not compile: %s\n%s" % (errs[0] if errs else "?", p.stdout[-2500:])}
+
+        def run(name):
+            out = os.path.join(outdir, "decl-%s-%s.json" % (pid, name))
+            if os.path.exists(out):
+                os.remove(out)
+            cmd = [os.path.join(tdir, "debug", name), "--mode", pid, "--tier", tier, "--out", out]
+            try:
+                r = subprocess.run(cmd, stdout=subprocess.PIPE, stderr=subprocess.PIPE, timeout=stage.get("timeout", 3000), env=chk.ENV_BASE)
+                return name, r.returncode, r.stderr.decode("utf8", "replace"), out
+            except subprocess.TimeoutExpired:
+                return name, "timeout", "", out
+        with ThreadPoolExecutor(max_workers=chk.NCPU) as ex:
+            results = list(ex.map(run, sorted(want)))
+        for name, rc, err, out in results:
+            if rc == 0 and os.path.exists(out):
+                r = json.load(open(out))
+                for v in r.get("violations", []):
+                    v["replay"]["bin"] = name
+                    v["replay"]["tier"] = tier
+                    v["replay"]["stage"] = {k: stage[k] for k in stage if k.startswith("batches_")}
+                chk.merge_into(merged, r)
+            elif rc == "timeout":
+                merged["inconclusive"].append("batch %s: wall-clock watchdog" % name)
+            else:
+                m = re.search(r"VRUN-CRASH case=(\d+)", err)
+                decl = int(m.group(1)) if m else -1
+                tagc = chk.crash_tag(err)
+                merged["violations"].append({"property": pid, "clause": "crash", "tag": tagc, "size": 1,
+                                             "detail": "batch %s died (rc=%s) while running declaration %d: %s" % (name, rc, decl, chk.crash_summary(err)),
+                                             "replay": {"kind": "declbatch", "seed": seed, "batch": want[name], "n_full": nfull, "n_names": nnames, "decl": decl, "mode": pid, "bin": name, "tier": tier}})
+                k = "%s|crash|%s" % (pid, tagc)
+                merged["violation_counts"][k] = merged["violation_counts"].get(k, 0) + 1
+        merged["counters"]["declarations_compiled"] = nb * (nfull + nnames)
+    finally:
+        fcntl.flock(lock, fcntl.LOCK_UN)
+        lock.close()
+    merged["wall"] = time.time() - t0
+    return merged
